@@ -203,9 +203,12 @@ Fixpoint check_args (args : list expr) (sig : list string) (s : cstate) : result
       end
   end.
 
-Definition check_fn_call_arity (f : fncall) (s : cstate) : result unit cstate :=
+(* [resolution]: fnCallResolution[fnCall.Caller]. The Go map is keyed by the pointer to the callee
+   node, written by the caller of checkFnCallArity just before: the entry read is the one just
+   written, or none. It is passed directly (cs_fnres, keyed by the callee's range, serves hover). *)
+Definition check_fn_call_arity (f : fncall) (resolution : option builtin) (s : cstate) : result unit cstate :=
   let valid := filter (fun e => negb (is_interface_nil e)) (fc_args f) in
-  match lookup_range (fc_caller_range f) (cs_fnres s) with
+  match resolution with
   | Some b =>
       let sig := b_params b in
       let actual := List.length valid in
@@ -385,11 +388,12 @@ Definition check_statement (st : stmt) (s : cstate) : result unit cstate :=
       s2 <- check_source src s1 ;;
       check_destination dst s2
   | StFnCall f =>
-      let s1 := match find_builtin (fc_caller f) with
-                | Some b => match b_ctx b with CtxStatement => add_fnres (fc_caller_range f) b s | CtxOrigin => s end
-                | None => s
-                end in
-      check_fn_call_arity f s1
+      let res := match find_builtin (fc_caller f) with
+                 | Some b => match b_ctx b with CtxStatement => Some b | CtxOrigin => None end
+                 | None => None
+                 end in
+      let s1 := match res with Some b => add_fnres (fc_caller_range f) b s | None => s end in
+      check_fn_call_arity f res s1
   end.
 
 Definition check_var_decl (d : vardecl) (s : cstate) : result unit cstate :=
@@ -398,34 +402,35 @@ Definition check_var_decl (d : vardecl) (s : cstate) : result unit cstate :=
             | Some (r, t) => if is_type_allowed t then s else emit r (DInvalidType t) s
             | None => s
             end in
+  (* checkVarOrigin: before the variable is registered - the interpreter evaluates the origin
+     before the variable exists *)
+  s3 <- match vd_origin d with
+        | None => Ok s1
+        | Some f =>
+            let res := match find_builtin (fc_caller f) with
+                       | Some b => match b_ctx b with CtxOrigin => Some b | CtxStatement => None end
+                       | None => None
+                       end in
+            s2 <- match res with
+                  | Some b =>
+                      let s' := add_fnres (fc_caller_range f) b s1 in
+                      match vd_name d, vd_type d with
+                      | Some (rn, _), Some (_, t) => assert_has_type (Some rn) (b_return b) t s'
+                      | _, _ => Ok s'
+                      end
+                  | None => Ok s1
+                  end ;;
+            check_fn_call_arity f res s2
+        end ;;
   (* checkDuplicateVars *)
-  let s2 := match vd_name d with
-            | Some (r, name) =>
-                if amem name (cs_declared s1) then emit r (DDuplicateVariable name) s1
-                else mkcstate (cs_unbounded_in_send s1) (cs_emptied s1) (cs_unbounded_send s1)
-                              (cs_declared s1 ++ [(name, d)]) (cs_unused s1 ++ [(name, r)])
-                              (cs_varres s1) (cs_fnres s1) (cs_diags s1)
-            | None => s1
-            end in
-  (* checkVarOrigin *)
-  match vd_origin d with
-  | None => Ok s2
-  | Some f =>
-      s3 <- match find_builtin (fc_caller f) with
-            | Some b =>
-                match b_ctx b with
-                | CtxOrigin =>
-                    let s' := add_fnres (fc_caller_range f) b s2 in
-                    match vd_name d, vd_type d with
-                    | Some (rn, _), Some (_, t) => assert_has_type (Some rn) (b_return b) t s'
-                    | _, _ => Ok s'
-                    end
-                | CtxStatement => Ok s2
-                end
-            | None => Ok s2
-            end ;;
-      check_fn_call_arity f s3
-  end.
+  Ok (match vd_name d with
+      | Some (r, name) =>
+          if amem name (cs_declared s3) then emit r (DDuplicateVariable name) s3
+          else mkcstate (cs_unbounded_in_send s3) (cs_emptied s3) (cs_unbounded_send s3)
+                        (cs_declared s3 ++ [(name, d)]) (cs_unused s3 ++ [(name, r)])
+                        (cs_varres s3) (cs_fnres s3) (cs_diags s3)
+      | None => s3
+      end).
 
 Fixpoint check_var_decls (ds : list vardecl) (s : cstate) : result unit cstate :=
   match ds with [] => Ok s | d :: ds' => s' <- check_var_decl d s ;; check_var_decls ds' s' end.
